@@ -110,7 +110,7 @@ def behaviours(kind, weighted, tier, seed):
 
 def run_container(prop, kind, tier, seed, cc=False, own_clauses=None, foreign=CC_CLAUSES, plan=None,
                   res=None, finish=True, do_explore=True, queries=True, full=True, scale=1.0,
-                  exhaustive_derive=True, own_ops=None, always_own=(), extra_behaviours=None):
+                  exhaustive_derive=True, own_ops=None, always_own=(), extra_behaviours=None, on_traces=None):
     """own_clauses: only these clause names are verdict-bearing for `prop`;
     own_ops: only rejections on events of these call kinds (or with a clause in always_own)"""
     res = res or Result(prop, tier, seed, "model_checking")
@@ -150,6 +150,8 @@ def run_container(prop, kind, tier, seed, cc=False, own_clauses=None, foreign=CC
             all_traces += traces
             all_meta += meta
         trep += time.time() - t1
+    if on_traces:
+        on_traces(res, kind, all_traces, all_meta)
     t1 = time.time()
     v = C.validate(kind, all_traces, procs=8, per_batch=max(20, len(all_traces) // 12 + 1))
     print("[%s %s] generate %.1fs replay %.1fs validate %.1fs (%d traces, %d events)" % (
